@@ -36,6 +36,8 @@ def cases(tier, seed):
             yield dict(model=m, focus=sub, changes=[])
             ch = [[full(i), rng.choice([11, -2.5, 0])] for i in spec['inputs']]
             yield dict(model=m, focus=sub, changes=ch)
+            if spec['names']:
+                yield dict(model=m, focus=sub, changes=ch, by_name=True)
 
 
 def deps(spec, focus):
@@ -103,10 +105,14 @@ def oracle(c):
     if missing:
         return False, f'extracted model contains the focus and all it depends on ({sorted(need)})', f'missing {missing}'
     ev_full, ev_sub = xlcalculator.Evaluator(model), xlcalculator.Evaluator(sub)
+    rev = {t.replace('$', ''): n for n, t in spec['names'].items() if ':' not in t}
     for addr, v in c['changes']:
         if addr in need:
-            ev_full.set_cell_value(addr, v)
-            ev_sub.set_cell_value(addr, v)
+            # the same change in both models - addressed through the cell's defined name where it has one and the
+            # extracted model knows the name
+            how = rev[addr] if (c.get('by_name') and addr in rev and rev[addr] in sub.defined_names) else addr
+            ev_full.set_cell_value(how, v)
+            ev_sub.set_cell_value(how, v)
     for f in c['focus']:
         try:
             a = observe(ev_full.evaluate(f))
@@ -123,6 +129,6 @@ def oracle(c):
 
 DRIVERS = [
     Driver('C13/B4.extract', cases, oracle, nchunks=8,
-           rule='5 acyclic models (chain, ranges, defined names for a cell / a range / an output, two sheets with a $ reference, dependency depth 4) x every non-empty focus subset of their cells and names (quick: all subsets up to 2 elements + 40 larger ones per model) x {no change, every input changed in both models}: closure, equal values of every focused item, original unchanged',
+           rule='5 acyclic models (chain, ranges, defined names for a cell / a range / an output, two sheets with a $ reference, dependency depth 4) x every non-empty focus subset of their cells and names (quick: all subsets up to 2 elements + 40 larger ones per model) x {no change, every input changed in both models by address, ... through its defined name}: closure, equal values of every focused item, original unchanged',
            bound='models of <= 6 cells'),
 ]
